@@ -185,8 +185,10 @@ def runC (fam : List GSchema) (ins : List GVal) (st : CState) (steps : List CSte
     internal/engine/parser.go validatePointer, after /repo e584c0e (no overwrite check attached): the pointee goes through
     the schema's validator and NOTHING is stored. When the validated value IS the value the pointer refers to
     (`sameValue`: scalars equal; maps, slices, pointers the same cell; structs / arrays member by member) the caller's own
-    pointer is the answer; when the validator built a new value (an object's result map) the answer is a pointer of its
-    own (`return &v`). `legacy = true` is the code before e584c0e: `*ptr = v; return ptr`. -/
+    pointer is the answer; since /repo 3302475 also when the validator built a new MAP holding exactly the pointee's entries
+    (`sameEntries`: an object that stripped, added and changed nothing); when the validator built any other new value (an
+    object's result map without the unknown keys) the answer is a pointer of its own (`return &v`). `legacy = true` is the code
+    before e584c0e: `*ptr = v; return ptr`. -/
 
 /-- internal/engine/parser.go sameValue -/
 def sameV : Nat → GVal → GVal → Bool
@@ -198,6 +200,19 @@ def sameV : Nat → GVal → GVal → Bool
     fs.length == gs.length && (fs.zip gs).all (fun pq => pq.1.1 == pq.2.1 && sameV f pq.1.2 pq.2.2)
   | _ + 1, _, _ => false
 
+/-- internal/engine/parser.go sameEntries (/repo 3302475): two non-nil MAPS holding exactly the same entries — the same number
+    of keys, every key of the first in the second with a `sameValue` value -/
+def sameEntriesV (h : GHeap) : GVal → GVal → Bool
+  | .ref x, .ref l =>
+    isMapCell (readG h x) && isMapCell (readG h l) && (readG h x).length == (readG h l).length &&
+      (readG h x).all (fun p =>
+        match (readG h l).find? (fun q => q.1 == p.1) with
+        | some q => sameV gdepth p.2 q.2
+        | none => false)
+  | _, _ => false
+
+/-- validatePointer as it is on /repo HEAD (3302475): nothing is stored; the caller's pointer when the validated value is the
+    pointee (`sameValue`) or a newly built map with exactly the pointee's entries (`sameEntries`), a pointer of its own otherwise -/
 def parsePtrS (legacy : Bool) (s : GSchema) (σ : GStore) (p : Loc) : GStore × Option GVal :=
   match readG σ.heap p with
   | [(0, v)] =>
@@ -206,6 +221,19 @@ def parsePtrS (legacy : Bool) (s : GSchema) (σ : GStore) (p : Loc) : GStore × 
     | some w =>
       if legacy then (assign (parseS s σ v).1 p [(0, w)], some (.ref p))
       else if sameV gdepth w v then ((parseS s σ v).1, some (.ref p))
+      else if sameEntriesV (parseS s σ v).1.heap w v then ((parseS s σ v).1, some (.ref p))
+      else ((galloc (parseS s σ v).1 [(0, w)]).1, some (.ref (galloc (parseS s σ v).1 [(0, w)]).2))
+  | _ => (σ, none)
+
+/-- validatePointer between e584c0e and 3302475 (no `sameEntries`): an object's newly built map always got a pointer of its
+    own. Legacy — used by the witness `legacy_objptr_own_pointer` only. -/
+def parsePtrS0 (s : GSchema) (σ : GStore) (p : Loc) : GStore × Option GVal :=
+  match readG σ.heap p with
+  | [(0, v)] =>
+    match (parseS s σ v).2 with
+    | none => ((parseS s σ v).1, none)
+    | some w =>
+      if sameV gdepth w v then ((parseS s σ v).1, some (.ref p))
       else ((galloc (parseS s σ v).1 [(0, w)]).1, some (.ref (galloc (parseS s σ v).1 [(0, w)]).2))
   | _ => (σ, none)
 
